@@ -9,7 +9,8 @@
 (* int[::1, :] = <<contig, follow>>, Fortran contiguous), all axes direct.  *)
 (*                                                                          *)
 (*  Reference  : acquisition succeeds iff the numbers of dimensions agree,  *)
-(*               no axis is indirect, and a contiguous declaration meets a  *)
+(*               no axis of a non-empty buffer is indirect, and a contiguous *)
+(*               declaration meets a                                        *)
 (*               contiguous buffer in the sense of PyBuffer_IsContiguous    *)
 (*               (an empty buffer is contiguous, axes of extent 1 do not    *)
 (*               count); then element [i, j, ..] is base[off + i*s1 + ...]. *)
@@ -55,8 +56,9 @@ IsC(d) == Size(d) = 0 \/ CCont(d, Len(d), 1)
 IsF(d) == Size(d) = 0 \/ FCont(d, 1, 1)
 DeclC(dc) == dc[Len(dc)] = "contig"
 DeclF(dc) == Len(dc) > 1 /\ dc[1] = "contig"
+\* (an empty buffer has no element whose address could depend on strides or suboffsets)
 RefOK(dc, v) == /\ Len(dc) = Len(v.d)
-                /\ \A k \in 1..Len(v.d) : ~v.d[k].ind
+                /\ Size(v.d) > 0 => \A k \in 1..Len(v.d) : ~v.d[k].ind
                 /\ DeclC(dc) => IsC(v.d)
                 /\ DeclF(dc) => IsF(v.d)
 
